@@ -776,6 +776,31 @@ class SList(Vec):
     def truth(self, ctx):
         return self.n > 0
 
+    def binop(self, ctx, op, other, reflected):
+        # list concatenation: [c0, c1, ..] + L, L + [..], L + L  (Python lists of ints)
+        if op == '+' and (isinstance(other, SList) or (isinstance(other, list) and all(is_intlike(x) for x in other))):
+            a, b = (other, self) if reflected else (self, other)
+            return SList.concat(a, b)
+        if isinstance(other, (list, tuple)):
+            return NotImplemented
+        return super().binop(ctx, op, other, reflected)
+
+    @staticmethod
+    def concat(a, b):
+        def parts(x):
+            if isinstance(x, SList):
+                return x.n, x._sel
+            items = [zint(v) for v in x]
+
+            def sel(i):
+                r = z3.IntVal(0)
+                for k in range(len(items) - 1, -1, -1):
+                    r = z3.If(i == k, items[k], r)
+                return r
+            return z3.IntVal(len(items)), sel
+        (na, sa), (nb, sb) = parts(a), parts(b)
+        return SList(z3.simplify(na + nb), lambda i: z3.If(i < na, sa(i), sb(i - na)), 'concat')
+
     def sym_min(self, ctx):
         if not ctx.branch(self.n > 0):
             raise PyRaise('ValueError', note='min() of empty list')
